@@ -54,6 +54,14 @@ claim("C18", _ACC + "; round trip proved for claims sets; KDF contexts observed 
       "Theorems: ClaimsSet, PartyInfo, SuppPubInfo and CoseKdfContext decoders accept exactly what their declarative specs accept, with the same field values; a well-formed claims set encodes to a map that decodes back to it. Encoding of well-formed values of the four types is compared with an independent Python encoder and decoded back on the implementation.",
       COMMON_NOTE, "DESIGN.md 7 (C18)")
 
+
+claim("C19", "Coq proof over all builder states and all call sequences (header builder = independently written documented effect; invariants by induction over fold_left of the step function; exact panic ranges; frame and override laws) + model-based testing of call histories on every public builder method",
+      "Theorems: the header builder's step equals an independently written record-update specification for every op and hence for every call sequence; no call sequence yields a header with both IV and Partial IV; value()/param()/claim()/private_claim() panic exactly on the reserved ranges and append otherwise; every protected-header setter discards retained wire bytes; setters change only their field; later setters override; key constructors populate exactly kty and parameters. The proofs' weight is in the invariants; a copy-paste slip in one macro-generated Rust setter is caught by running generated call histories (all 14 builders, every public method) on the implementation and the proved model.",
+      COMMON_NOTE, "DESIGN.md 7 (C19)")
+claim("C20", "Coq proof (canonicalize = stable sort of the extras under the label order; emitted keys strictly ascending in the RFC 8949 / RFC 7049 order of their encodings; permutation; idempotence; known class label Int(0) proved as refutation) + all-permutations correspondence with an independent Python sortedness oracle",
+      "Theorems for every well-formed key and both orderings: canonicalize only permutes the extra parameters, the emitted map's encoded keys are strictly ascending (typed labels 1..5 encode lowest except against label 0), sorting is idempotent; with an extra label Int(0) the statement is false and a witness is proved (known finding F3). The implementation's output is checked for strictly ascending encoded keys by an independent parser, for unchanged content, no-op on repetition, and decode/re-encode stability.",
+      COMMON_NOTE, "DESIGN.md 7 (C20), 8 (F3)")
+
 def main():
     props = sorted(TITLES)
     checks = []
